@@ -35,6 +35,8 @@ FINDINGS = {
     "C01-long-key-accepted": "WriteEntry accepts a key longer than 65535 bytes; its 16-bit length field wraps and the file no longer loads (or loads different records)",
     "C01-block-entry-count-overflow": "a block with more than 65535 buffered entries wraps the 16-bit EntryCount; the extra entries are silently dropped on load",
     "C01-delete-not-replayed": "LoadIndex does not remove keys on OpDelete",
+    "C01-api-acks-unstorable-name": ("the gateway accepts a swamp name longer than 65535 bytes that the file writer refuses: Set answers NEW, "
+                                     "every chronicler Write fails in ensureWriter and is only logged; after a restart the swamp does not exist"),
     "C01-chronicler-drops-refused-entry": ("chroniclerV2.Write only logs an entry the writer refuses (empty / >65535-byte key) and has no result: "
                                            "the swamp and the gateway have already acknowledged the record, which is gone after a reload"),
 }
